@@ -130,6 +130,8 @@ func vMk(kind, a, b int) vDesc {
 		return vMkLine(a)
 	case 3:
 		return vMkPoly(a, b, 1)
+	case 12: // polygon whose rings are given without the repeated closing position
+		return vMkPoly(a, b, 0)
 	case 4:
 		return vMkRect()
 	case 5: // MultiPoint of a points
